@@ -1,7 +1,7 @@
 ENGINE = {'name': 'e2e',
  'pkg': 'integration',
  'files': ['integration/c01_e2e_test.go', 'integration/c01_e2e_more_test.go'],
- 'run': '^TestVerifC01(E2E|Timed|UDP)$',
+ 'run': '^TestVerifC01(E2E|Timed|UDP|Layered)$',
  'n_quick': 300,
  'n_thorough': 4000,
  'timeout': 900,
@@ -12,7 +12,7 @@ ENGINE = {'name': 'e2e',
          'Read or MatchingBytes, k in 0..MaxMatchingBytes biased to 2048/4096/8192 +-1, answer yes/no) and recording handlers (consume c bytes '
          'then continue / read to EOF, reader buffers 1..32768); position-coded client streams of 0..4*MaxMatchingBytes bytes; client '
          'segmentations {1 byte, random, 2048-aligned, all at once}; every 8th scenarios force a matcher needing > 4096 bytes in front of '
-         'proxy_protocol / tee; one matcher set in three is {not{need k1: no}; need k} (real `not` matcher next to a reading matcher, order by map iteration); every 5th scenario runs the whole chain behind the real tls matcher + tls handler (self-signed certificate loaded into the caddy tls app, crypto/tls client, TLS 1.2 or 1.3, plaintext written in the scenario segmentation); plus (TestVerifC01Timed) 6 (thorough 16) scenarios in which the client pauses 1 s -- longer than the 400 ms matching_timeout of a subroute -- after a non-terminal match and an undecided-then-no route, run in parallel, each retried up to 3 times before it is reported (keys C01:fallback-after-timeout:*); plus (TestVerifC01UDP) 60 (thorough 600) UDP scenarios on the real servePacket/packetConn over an in-memory net.PacketConn: datagram sizes around prefetchChunkSize (2047/2048/2049), equal to the read buffer of the recorder, or arbitrary, matcher k in {0,1,100,2048,2049,4096} (keys C01:udp:*); oracle: bytes read by every recorder (and echoed bytes) == the expected part of the client stream; a scenario '
+         'proxy_protocol / tee; one matcher set in three is {not{need k1: no}; need k} (real `not` matcher next to a reading matcher, order by map iteration); every 5th scenario runs the whole chain behind the real tls matcher + tls handler (self-signed certificate loaded into the caddy tls app, crypto/tls client, TLS 1.2 or 1.3, plaintext written in the scenario segmentation); plus (TestVerifC01Timed) 6 (thorough 16) scenarios in which the client pauses 1 s -- longer than the 400 ms matching_timeout of a subroute -- after a non-terminal match and an undecided-then-no route, run in parallel, each retried up to 3 times before it is reported (keys C01:fallback-after-timeout:*); plus (TestVerifC01UDP) 60 (thorough 600) UDP scenarios on the real servePacket/packetConn over an in-memory net.PacketConn: datagram sizes around prefetchChunkSize (2047/2048/2049), equal to the read buffer of the recorder, or arbitrary, matcher k in {0,1,100,2048,2049,4096} (keys C01:udp:*); plus (TestVerifC01Layered) a two-route config [prefix matcher on the PROXY header -> proxy_protocol] [prefix matcher on the inner stream -> recorder] per header form with the stream split after every position of the header (keys <prop>:layered:*); every provisioned config of the main test serves three connections (one alone, then two overlapping; recorders are kept per connection), chains may contain a fall-through subroute followed by further routes, and one UDP scenario in five is a burst of 6..20 datagrams sent before the handler (delayed by throttle latency 150ms) reads for the first time; oracle: bytes read by every recorder (and echoed bytes) == the expected part of the client stream; a scenario '
          'is non-trivial when its chain has at least one wrapping element and the stream is non-empty; distinct = distinct (shape, segmentation) classes',
  'trusted_base': ['net.Pipe as the transport (synchronous, in order); caddy.Load / module loading of Caddy v2 to build the servers',
                   'the harness modules layer4.matchers.verif_need, layer4.handlers.verif_rec and the verifpipe network'],
